@@ -106,6 +106,7 @@ if __name__ == '__main__':
             contracts.post_invariants(r['interp'], inst, r['results'], r.get('args', []))
             from . import mm
             mm.check_root_post(r['interp'], inst, r['results'], r.get('args', []))
+            mm.check_domain(r['interp'], inst, vs[0][0], r['results'])
             if vs[0][2]:
                 vs[0][2](r['interp'], inst, r['results'])
         I = r['interp']
